@@ -17,7 +17,8 @@ EXPLANATION = ("One ledger, decided structurally: (R1) dimension-and-scale infer
                "binding of update_pilots -> set_pilot with the same station index for pilot, voltage and EVSE; (R6) "
                "current_charging_rates has one element per EVSE, the connected EV's rate under a None-guard and literal 0 "
                "otherwise; (R7) both recording writes store that vector at column exactly = period counter, the aggregate "
-               "is a sum of it and peak = max(previous peak, aggregate).")
+               "is a sum of it and peak = max(previous peak, aggregate)."
+               ' Added in round 3: aggregate power / current as defined (shared with C18), the ledger starts at zero, the loop-structure rules of C01 incl. array growth; generic well-formedness of every analysed function.')
 NOT_DECIDED = "float equality of the three stored totals over a run"
 
 ALLOWED_WRITERS = {
